@@ -48,6 +48,9 @@ class ConcreteOps:
     def close(self, a, b, tol=1e-9):
         a, b = self.num(a), self.num(b)
         return abs(a - b) <= 10 * tol * (1 + abs(b))
+    def near(self, a, b, tol=1e-9):
+        a, b = self.num(a), self.num(b)
+        return abs(a - b) <= 10 * tol * (1 + abs(b))
     def le(self, a, b): return self.ge(b, a)
     def gt(self, a, b): return self.num(a) > self.num(b)
     def abs(self, a): return abs(a)
@@ -139,6 +142,13 @@ class SymOps:
     def ge(self, a, b):
         at, bt = self._l(a), self._l(b)
         return Claim(at >= bt, bt - at > z3.RealVal('1/1000') * (1 + _abs(bt)))
+
+    def near(self, a, b, tol=1e-9):
+        """(a-b)^2 <= tol^2*(1+b^2): a relative tolerance without absolute values, one polynomial query for nlsat (any sign of b)"""
+        at, bt = self._l(a), self._l(b)
+        d = at - bt
+        t2 = z3.RealVal(repr(tol)) * z3.RealVal(repr(tol))
+        return Claim(d * d <= t2 * (1 + bt * bt), d * d > 1000000 * t2 * (1 + bt * bt), nonlinear=True)
 
     def close(self, a, b, tol=1e-9):
         """|a-b| <= tol*(1+b) for a reference b known to be >= 0; posed as two abs-free polynomial queries (nlsat)"""
@@ -361,7 +371,7 @@ def run_scenarios(scens, patches_cm, timeout_ms=10000, max_paths=4000, wall_s=12
         pre_terms = []
         for p in scen.pre:
             r = eval(p, {'v': v, 'z3': z3})
-            pre_terms.append(r.t if isinstance(r, SymBool) else z3.BoolVal(bool(r)))
+            pre_terms.append(r.t if isinstance(r, SymBool) else r if z3.is_expr(r) else z3.BoolVal(bool(r)))
         eng.assume_global(*pre_terms)
         if background:
             eng.assume_global(*background(v))
